@@ -3,7 +3,7 @@
    network, induce an acyclic channel-dependency graph.  The tree is given by a checked certificate (a depth per
    unit, Side.tree_certb); every other hypothesis is one of the decidable side conditions of C02. *)
 From FV Require Import Base AddrRange RouteMap Graph Desc Build Netlist Compile Routing Emit Hw Side Check CheckProofs CdgProofs
-     ModelBase BuildProofs ModelProofs IdProofs PathProofs RefOracle HwProofs WireProofs TreeCdg.
+     ModelBase BuildProofs ModelProofs IdProofs Paths PathProofs RefOracle NxProofs NxHw HwProofs WireProofs TreeCdg.
 From Coq Require Import ZifyBool.
 
 Lemma in_links_iff g l : In l (map epair (link_edges g)) <-> is_link_of g l.
@@ -48,29 +48,57 @@ Proof.
   destruct (sp (c_graph c) (cr_name r) (cn_name t)); [discriminate|discriminate H].
 Qed.
 
+(* the oracle contract (DESIGN 3.4) towards every interface of a compiled network *)
+Definition contract (sp : oracle) (g : graph) (c : compiled) (B : nat) : Prop :=
+  forall t, In t (c_nis c) ->
+    (forall s p, sp g s (cn_name t) = Some p -> path_to_t (E g) (cn_name t) p s) /\
+    (forall s p q, sp g s (cn_name t) = Some p -> path_to_t (E g) (cn_name t) q s -> (length p <= length q)%nat) /\
+    (forall s p, sp g s (cn_name t) = Some p -> (length p <= B)%nat) /\
+    (forall s q, path_to_t (E g) (cn_name t) q s -> (length q <= B)%nat -> sp g s (cn_name t) <> None).
+
+Lemma contract_ref g c : contract sp_reference g c (bound g).
+Proof.
+  intros t _. split; [|split; [|split]].
+  - intros s p H. exact (sp_ref_path g (cn_name t) s p H).
+  - intros s p q H Hq. exact (sp_ref_min g (cn_name t) s p q H Hq).
+  - intros s p H. exact (sp_ref_bound g (cn_name t) s p H).
+  - intros s q Hq Hl. exact (sp_ref_complete g (cn_name t) s q Hq Hl).
+Qed.
+Lemma contract_nx d g c : build d = Ok g -> compile d g = Ok c -> contract sp_nx g c (nxB g).
+Proof.
+  intros Hb Hc t Ht. split; [|split; [|split]].
+  - exact (nx_path d g c t Hb Hc Ht).
+  - exact (nx_min d g c t Hb Hc Ht).
+  - exact (nx_bound d g c t Hb Hc Ht).
+  - exact (nx_complete d g c t Hb Hc Ht).
+Qed.
+
 Definition id_deps (d : desc) (ri : rinfo) (n : netlist) (nt : net) (pairs : list (cni * cni)) : egraph :=
   flat_map (fun st => match id_num (cn_id (snd st)) with
                       | Ok id => consecutive (t_sigs (send n nt (emit_ni d (ri_offset ri) (fst st)) (HId id)))
                       | Err _ => []
                       end) pairs.
 
-Theorem hw_tree_acyclic (d : desc) (g : graph) (c : compiled) (ri : rinfo) (n : netlist) (nt : net) (dp : list (string * Z)) :
+Theorem hw_tree_acyclic_gen (sp : oracle) (B : nat) (d : desc) (g : graph) (c : compiled) (ri : rinfo) (n : netlist) (nt : net) (dp : list (string * Z)) :
   net_ok d nt ->
-  build d = Ok g -> compile d g = Ok c -> gen_routing_info sp_reference c = Ok ri -> emit c ri = Ok n -> d_algo d = ID ->
-  forallb (transitb sp_reference c) (c_nis c) = true ->
+  build d = Ok g -> compile d g = Ok c -> gen_routing_info sp c = Ok ri -> emit c ri = Ok n -> d_algo d = ID ->
+  contract sp g c B ->
+  forallb (transitb sp c) (c_nis c) = true ->
   names_sepb g nt = true -> single_attachb g c = true -> links_typedb g c = true -> degrees_fitb c = true ->
   attachedb c nt = true -> tree_certb g dp = true ->
   forall pairs : list (cni * cni),
     (forall s0 t, In (s0, t) pairs -> In s0 (c_nis c) /\ In t (c_nis c) /\ cn_name s0 <> cn_name t) ->
     acyclic (id_deps d ri n nt pairs).
 Proof.
-  intros Hnt Hb Hc Hri He Ha Htr H1 H2 H3 H4 Hatt Hcert pairs Hpairs.
+  intros Hnt Hb Hc Hri He Ha Hcon Htr H1 H2 H3 H4 Hatt Hcert pairs Hpairs.
+  assert (Cpath := fun t Ht => proj1 (Hcon t Ht)). assert (Cmin := fun t Ht => proj1 (proj2 (Hcon t Ht))).
+  assert (Cbound := fun t Ht => proj1 (proj2 (proj2 (Hcon t Ht)))). assert (Ccomplete := fun t Ht => proj2 (proj2 (proj2 (Hcon t Ht)))).
   assert (Hcg : c_graph c = g) by apply (compile_desc d g c Hc).
   destruct (cert_parts g dp Hcert) as (C0 & C1 & C2 & C3).
   set (route := fun st : cni * cni =>
          let r0 := snd (attach nt (fst st)) in
-         match sp_reference g r0 (cn_name (snd st)) with
-         | Some p => cn_name (fst st) :: PathProofs.follow (fun u => sp_reference g u (cn_name (snd st))) (length p - 1) r0
+         match sp g r0 (cn_name (snd st)) with
+         | Some p => cn_name (fst st) :: PathProofs.follow (fun u => sp g u (cn_name (snd st))) (length p - 1) r0
          | None => []
          end).
   assert (Hac := tree_routes_acyclic nt (map epair (link_edges g)) (dep_of dp) C0 C1 C2 C3
@@ -79,39 +107,31 @@ Proof.
   rewrite forallb_forall in Htr. unfold attachedb in Hatt. rewrite forallb_forall in Hatt.
   (* what the hardware does on every pair *)
   assert (Hsend : forall st, In st pairs -> exists id p,
-             id_num (cn_id (snd st)) = Ok id /\ sp_reference g (snd (attach nt (fst st))) (cn_name (snd st)) = Some p /\
+             id_num (cn_id (snd st)) = Ok id /\ sp g (snd (attach nt (fst st))) (cn_name (snd st)) = Some p /\
              t_sigs (send n nt (emit_ni d (ri_offset ri) (fst st)) (HId id)) = map (flow nt) (consecutive (route st)) /\
              NoDup (route st) /\ Forall (is_link_of g) (consecutive (route st))).
   { intros [s0 t] Hst. destruct (Hpairs s0 t Hst) as (Hs0 & Ht & Hne). cbn [fst snd].
     assert (Hrt : is_router c (snd (attach nt s0))).
     { apply is_rtb_ok. specialize (Hatt s0 Hs0). unfold attach_of in Hatt. unfold attach, rev_link. destruct nt; exact Hatt. }
     destruct Hrt as (r & Hr & Hrn).
-    pose proof (transitb_some sp_reference c t r (Htr t Ht) Hr) as Hsome. rewrite Hcg, Hrn in Hsome.
-    destruct (sp_reference g (snd (attach nt s0)) (cn_name t)) as [p|] eqn:Esp; [|congruence].
+    pose proof (transitb_some sp c t r (Htr t Ht) Hr) as Hsome. rewrite Hcg, Hrn in Hsome.
+    destruct (sp g (snd (attach nt s0)) (cn_name t)) as [p|] eqn:Esp; [|congruence].
     assert (Hxy : d_algo d <> XY) by (rewrite Ha; discriminate).
     pose proof (ids_are_uids d g c Hc Hxy t Ht) as Hid.
-    destruct (hw_send_full sp_reference d g c ri n t (cn_uid t) nt Hnt Hb Hc Hri He Ha Ht ltac:(rewrite Hid; reflexivity)
-           (fun s p H => sp_ref_path g (cn_name t) s p H)
-           (fun s p q H Hq => sp_ref_min g (cn_name t) s p q H Hq)
-           (bound g)
-           (fun s p H => sp_ref_bound g (cn_name t) s p H)
-           (fun s q Hq Hl => sp_ref_complete g (cn_name t) s q Hq Hl)
-           (fun u p0 Hu Hp0 => transitb_ok sp_reference c t (Htr t Ht) u p0 Hu (eq_ind_r (fun gg => sp_reference gg u (cn_name t) = Some p0) Hp0 Hcg))
+    destruct (hw_send_full sp d g c ri n t (cn_uid t) nt Hnt Hb Hc Hri He Ha Ht ltac:(rewrite Hid; reflexivity)
+           (Cpath t Ht) (Cmin t Ht) B (Cbound t Ht) (Ccomplete t Ht)
+           (fun u p0 Hu Hp0 => transitb_ok sp c t (Htr t Ht) u p0 Hu (eq_ind_r (fun gg => sp gg u (cn_name t) = Some p0) Hp0 Hcg))
            (model_signal_ok d g c ri n nt Hnt Hb Hc He (names_sepb_ok g nt H1) (single_attachb_ok g c H2) (links_typedb_ok g c H3))
            (degrees_fitb_ok c H4)
            s0 (snd (attach nt s0)) p Hs0 Hne eq_refl (ex_intro _ r (conj Hr Hrn)) Esp) as (_ & _ & S3 & S4 & S5).
     exists (cn_uid t), p. rewrite Hid. split; [reflexivity|]. split; [reflexivity|].
     unfold route. cbn [fst snd]. rewrite Esp. split; [exact S3|]. split; [|exact S5].
     constructor; [exact S4|].
-    destruct p as [|a p']; [destruct (sp_ref_path g (cn_name t) _ _ Esp) as (_ & _ & _ & X); congruence|].
+    destruct p as [|a p']; [destruct (Cpath t Ht _ _ Esp) as (_ & _ & _ & X); congruence|].
     cbn [length]. replace (S (length p') - 1)%nat with (length p') by lia.
     apply (follow_nodup (fun u v => exists e, In e (g_edges g) /\ e_src e = u /\ e_dst e = v) (cn_name t)
-             (fun u => sp_reference g u (cn_name t))
-             (fun s p H => sp_ref_path g (cn_name t) s p H)
-             (fun s p q H Hq => sp_ref_min g (cn_name t) s p q H Hq)
-             (bound g)
-             (fun s p H => sp_ref_bound g (cn_name t) s p H)
-             (fun s q Hq Hl => sp_ref_complete g (cn_name t) s q Hq Hl) (length p') _ (a :: p') Esp eq_refl). }
+             (fun u => sp g u (cn_name t))
+             (Cpath t Ht) (Cmin t Ht) B (Cbound t Ht) (Ccomplete t Ht) (length p') _ (a :: p') Esp eq_refl). }
   specialize (Hac ltac:(intros p a b Hp Hab; apply in_map_iff in Hp; destruct Hp as (st & <- & Hst);
                         destruct (Hsend st Hst) as (_ & _ & _ & _ & _ & _ & F); rewrite Forall_forall in F;
                         apply in_links_iff; exact (F _ Hab))
@@ -135,8 +155,8 @@ Proof.
   intros Hq. apply (proj2 (str_eqb_eq _ _)) in Hq. congruence.
 Qed.
 
-Lemma c09_deps_among d g c ri n nt :
-  build d = Ok g -> compile d g = Ok c -> gen_routing_info sp_reference c = Ok ri -> emit c ri = Ok n -> d_algo d = ID ->
+Lemma c09_deps_among (sp : oracle) d g c ri n nt :
+  build d = Ok g -> compile d g = Ok c -> gen_routing_info sp c = Ok ri -> emit c ri = Ok n -> d_algo d = ID ->
   forall e, In e (c09_deps n nt) -> In e (id_deps d ri n nt (all_pairs c)).
 Proof.
   intros Hb Hc Hri He Ha e Hin.
@@ -154,7 +174,7 @@ Proof.
     rewrite Hcd, Ha. cbn [algo_name]. replace (str_eqb "IdTable" "SourceRouting") with false by reflexivity.
     cbn [emit_ni Netlist.ni_id]. assert (Hxy : d_algo d <> XY) by (rewrite Ha; discriminate).
     rewrite (ids_are_uids d g c Hc Hxy t0 Ht0). cbn [id_sub hdr_of_id n_id_bits].
-    pose proof (uids_range d g c Hb Hc t0 Ht0) as Hr. destruct (id_bits_cover sp_reference c ri Hri) as (HN & _ & Hcov).
+    pose proof (uids_range d g c Hb Hc t0 Ht0) as Hr. destruct (id_bits_cover sp c ri Hri) as (HN & _ & Hcov).
     unfold trunc. rewrite Z.mod_small by lia. reflexivity. }
   rewrite Hh in Hin. unfold id_deps. apply in_flat_map. exists (s0, t0). split.
   - unfold all_pairs. apply in_flat_map. exists s0. split; [exact Hs0|]. apply in_flat_map. exists t0. split; [exact Ht0|].
@@ -164,21 +184,22 @@ Proof.
 Qed.
 
 (* C09 as the checker states it, for every ID-routed description whose links form a tree *)
-Theorem model_tree_C09 (d : desc) (g : graph) (c : compiled) (ri : rinfo) (n : netlist) (dp : list (string * Z)) :
-  build d = Ok g -> compile d g = Ok c -> gen_routing_info sp_reference c = Ok ri -> emit c ri = Ok n -> d_algo d = ID ->
-  forallb (transitb sp_reference c) (c_nis c) = true ->
+Theorem model_tree_C09_gen (sp : oracle) (B : nat) (d : desc) (g : graph) (c : compiled) (ri : rinfo) (n : netlist) (dp : list (string * Z)) :
+  build d = Ok g -> compile d g = Ok c -> gen_routing_info sp c = Ok ri -> emit c ri = Ok n -> d_algo d = ID ->
+  contract sp g c B ->
+  forallb (transitb sp c) (c_nis c) = true ->
   names_sepb g Req = true -> names_sepb g Rsp = true -> single_attachb g c = true -> links_typedb g c = true -> degrees_fitb c = true ->
   attachedb c Req = true -> attachedb c Rsp = true -> tree_certb g dp = true ->
   C09_on n.
 Proof.
-  intros Hb Hc Hri He Ha Htr N1 N2 H2 H3 H4 A1 A2 Hcert nt Hnt.
+  intros Hb Hc Hri He Ha Hcon Htr N1 N2 H2 H3 H4 A1 A2 Hcert nt Hnt.
   assert (Hac : acyclic (c09_deps n nt)).
   { intros v Hp.
     assert (Hok : net_ok d nt) by (destruct Hnt as [-> | ->]; [left|right; left]; reflexivity).
     assert (Hns : names_sepb g nt = true) by (destruct Hnt as [-> | ->]; assumption).
     assert (Hat : attachedb c nt = true) by (destruct Hnt as [-> | ->]; assumption).
-    apply (hw_tree_acyclic d g c ri n nt dp Hok Hb Hc Hri He Ha Htr Hns H2 H3 H4 Hat Hcert (all_pairs c) (all_pairs_spec c) v).
-    eapply path_mono; [|exact Hp]. apply (c09_deps_among d g c ri n nt Hb Hc Hri He Ha). }
+    apply (hw_tree_acyclic_gen sp B d g c ri n nt dp Hok Hb Hc Hri He Ha Hcon Htr Hns H2 H3 H4 Hat Hcert (all_pairs c) (all_pairs_spec c) v).
+    eapply path_mono; [|exact Hp]. apply (c09_deps_among sp d g c ri n nt Hb Hc Hri He Ha). }
   split; [exact Hac|]. intros W Hsub Hall. eapply acyclic_no_deadlock; eauto.
 Qed.
 
@@ -187,47 +208,50 @@ Qed.
 Lemma transit_allb_eq sp c : transit_allb sp c = forallb (transitb sp c) (c_nis c).
 Proof. reflexivity. Qed.
 
-Theorem tree_conditions_sound (d : desc) (g : graph) (c : compiled) (ri : rinfo) (n : netlist) :
-  build d = Ok g -> compile d g = Ok c -> gen_routing_info sp_reference c = Ok ri -> emit c ri = Ok n -> d_algo d = ID ->
-  (exists bs, tree_conditions sp_reference d = Ok bs /\ forallb (fun b => b) bs = true) -> C09_on n.
+Theorem tree_conditions_sound_gen (sp : oracle) (B : nat) (d : desc) (g : graph) (c : compiled) (ri : rinfo) (n : netlist) :
+  build d = Ok g -> compile d g = Ok c -> gen_routing_info sp c = Ok ri -> emit c ri = Ok n -> d_algo d = ID ->
+  contract sp g c B ->
+  (exists bs, tree_conditions sp d = Ok bs /\ forallb (fun b => b) bs = true) -> C09_on n.
 Proof.
-  intros Hb Hc Hri He Ha (bs & Ht & Hall). unfold tree_conditions in Ht. rewrite Hb in Ht. cbn [bind] in Ht. rewrite Hc in Ht. cbn [bind] in Ht.
+  intros Hb Hc Hri He Ha Hcon (bs & Ht & Hall). unfold tree_conditions in Ht. rewrite Hb in Ht. cbn [bind] in Ht. rewrite Hc in Ht. cbn [bind] in Ht.
   destruct (tree_certb g (levels g)) eqn:Ecert; inversion Ht; subst bs; clear Ht; [|discriminate Hall].
   rewrite Ha in Hall. cbn [forallb] in Hall. repeat (apply andb_true_iff in Hall; destruct Hall as (? & Hall)).
-  eapply (model_tree_C09 d g c ri n (levels g)); eauto.
+  eapply (model_tree_C09_gen sp B d g c ri n (levels g)); eauto.
 Qed.
 
 (* ------------------------------------------------------------------ source routing *)
-Definition src_deps (c : compiled) (d : desc) (ri : rinfo) (n : netlist) (nt : net) (pairs : list (cni * cni)) : egraph :=
-  flat_map (fun st => match gen_route sp_reference c (fst st) (snd st) with
+Definition src_deps (sp : oracle) (c : compiled) (d : desc) (ri : rinfo) (n : netlist) (nt : net) (pairs : list (cni * cni)) : egraph :=
+  flat_map (fun st => match gen_route sp c (fst st) (snd st) with
                       | Ok (_, Some ps) => consecutive (t_sigs (send n nt (emit_ni d (ri_offset ri) (fst st)) (hdr_of_word n (word_value ps))))
                       | _ => []
                       end) pairs.
 
-Theorem hw_tree_acyclic_src (d : desc) (g : graph) (c : compiled) (ri : rinfo) (n : netlist) (nt : net) (dp : list (string * Z)) :
+Theorem hw_tree_acyclic_src_gen (sp : oracle) (B : nat) (d : desc) (g : graph) (c : compiled) (ri : rinfo) (n : netlist) (nt : net) (dp : list (string * Z)) :
   net_ok d nt ->
-  build d = Ok g -> compile d g = Ok c -> gen_routing_info sp_reference c = Ok ri -> emit c ri = Ok n -> d_algo d = SRC ->
-  first_hopb sp_reference g c nt = true ->
+  build d = Ok g -> compile d g = Ok c -> gen_routing_info sp c = Ok ri -> emit c ri = Ok n -> d_algo d = SRC ->
+  contract sp g c B ->
+  first_hopb sp g c nt = true ->
   names_sepb g nt = true -> single_attachb g c = true -> links_typedb g c = true ->
   tree_certb g dp = true ->
   forall pairs : list (cni * cni),
     (forall s0 t, In (s0, t) pairs -> In s0 (c_nis c) /\ In t (c_nis c)) ->
-    acyclic (src_deps c d ri n nt pairs).
+    acyclic (src_deps sp c d ri n nt pairs).
 Proof.
-  intros Hnt Hb Hc Hri He Ha Hfh H1 H2 H3 Hcert pairs Hpairs.
+  intros Hnt Hb Hc Hri He Ha Hcon Hfh H1 H2 H3 Hcert pairs Hpairs.
+  assert (Cpath := fun t Ht => proj1 (Hcon t Ht)). assert (Cmin := fun t Ht => proj1 (proj2 (Hcon t Ht))).
   assert (Hcg : c_graph c = g) by apply (compile_desc d g c Hc).
   assert (Hcd : c_desc c = d) by apply (compile_desc d g c Hc).
   destruct (cert_parts g dp Hcert) as (C0 & C1 & C2 & C3).
   set (route := fun st : cni * cni =>
-         match gen_route sp_reference c (fst st) (snd st) with
-         | Ok (_, Some _) => match sp_reference g (cn_name (fst st)) (cn_name (snd st)) with Some p => p | None => [] end
+         match gen_route sp c (fst st) (snd st) with
+         | Ok (_, Some _) => match sp g (cn_name (fst st)) (cn_name (snd st)) with Some p => p | None => [] end
          | _ => []
          end).
   assert (Hac := tree_routes_acyclic nt (map epair (link_edges g)) (dep_of dp) C0 C1 C2 C3
                    (fun l1 l2 A B => names_sepb_ok g nt H1 l1 l2 (proj1 (in_links_iff g l1) A) (proj1 (in_links_iff g l2) B))
                    (map route pairs)).
   unfold first_hopb in Hfh. rewrite forallb_forall in Hfh.
-  assert (Hsend : forall st id ps, In st pairs -> gen_route sp_reference c (fst st) (snd st) = Ok (id, Some ps) ->
+  assert (Hsend : forall st id ps, In st pairs -> gen_route sp c (fst st) (snd st) = Ok (id, Some ps) ->
              t_sigs (send n nt (emit_ni d (ri_offset ri) (fst st)) (hdr_of_word n (word_value ps))) = map (flow nt) (consecutive (route st)) /\
              NoDup (route st) /\ Forall (is_link_of g) (consecutive (route st))).
   { intros [s0 t] id ps Hst Hgr. destruct (Hpairs s0 t Hst) as (Hs0 & Ht). cbn [fst snd] in *.
@@ -236,27 +260,55 @@ Proof.
     pose proof Hgr as Hgr'. unfold gen_route in Hgr'. inv_bind Hgr'.
     destruct (str_eqb (cn_name s0) (cn_name t) || only_mgr s0 && only_mgr t || only_sbr s0 && only_sbr t) eqn:Ecase; [inversion Hgr'|].
     apply orb_false_iff in Ecase. destruct Ecase as (Ecase & _). apply orb_false_iff in Ecase. destruct Ecase as (Hne & _).
-    rewrite Hcg in Hgr'. destruct (sp_reference g (cn_name s0) (cn_name t)) as [p|] eqn:Esp; [|discriminate].
+    rewrite Hcg in Hgr'. destruct (sp g (cn_name s0) (cn_name t)) as [p|] eqn:Esp; [|discriminate].
     assert (Hatt : snd (attach nt s0) = hd "" (tl p)).
     { specialize (Hfh s0 Hs0). rewrite forallb_forall in Hfh. specialize (Hfh t Ht). rewrite Hne, Esp in Hfh. cbn [orb] in Hfh.
       apply str_eqb_eq in Hfh. rewrite <- Hfh. unfold attach, attach_of, rev_link. destruct nt; reflexivity. }
-    rewrite (hdr_of_word_fits sp_reference c ri n s0 t id ps ltac:(rewrite Hcd; exact Ha) Hri He Hs0 Ht Hgr).
-    destruct (hw_src_send_full sp_reference d g c ri n t nt Hnt Hb Hc He Ht
+    rewrite (hdr_of_word_fits sp c ri n s0 t id ps ltac:(rewrite Hcd; exact Ha) Hri He Hs0 Ht Hgr).
+    destruct (hw_src_send_full sp d g c ri n t nt Hnt Hb Hc He Ht
            (model_signal_ok d g c ri n nt Hnt Hb Hc He (names_sepb_ok g nt H1) (single_attachb_ok g c H2) (links_typedb_ok g c H3))
            s0 id ps p Hs0 Hgr Esp
-           (conj (sp_ref_path g (cn_name t) _ _ Esp) (fun q Hq => sp_ref_min g (cn_name t) _ _ q Esp Hq)) Hatt)
+           (conj (Cpath t Ht _ _ Esp) (fun q Hq => Cmin t Ht _ _ q Esp Hq)) Hatt)
       as (_ & _ & _ & S4 & S5 & S6).
     auto. }
   specialize (Hac ltac:(intros p a b Hp Hab; apply in_map_iff in Hp; destruct Hp as (st & <- & Hst);
-                        unfold route in Hab |- *; destruct (gen_route sp_reference c (fst st) (snd st)) as [[id [ps|]]|] eqn:Eg; try (destruct Hab);
+                        unfold route in Hab |- *; destruct (gen_route sp c (fst st) (snd st)) as [[id [ps|]]|] eqn:Eg; try (destruct Hab);
                         destruct (Hsend st id ps Hst Eg) as (_ & _ & F); unfold route in F; rewrite Eg in F; rewrite Forall_forall in F;
                         apply in_links_iff; exact (F _ Hab))
                   ltac:(intros p Hp; apply in_map_iff in Hp; destruct Hp as (st & <- & Hst);
-                        unfold route; destruct (gen_route sp_reference c (fst st) (snd st)) as [[id [ps|]]|] eqn:Eg; try constructor;
+                        unfold route; destruct (gen_route sp c (fst st) (snd st)) as [[id [ps|]]|] eqn:Eg; try constructor;
                         destruct (Hsend st id ps Hst Eg) as (_ & N & _); unfold route in N; rewrite Eg in N; exact N)).
   intros v Hp. apply (Hac v). eapply path_mono; [|exact Hp].
   intros e Hin. unfold src_deps in Hin. apply in_flat_map in Hin. destruct Hin as (st & Hst & Hin).
-  destruct (gen_route sp_reference c (fst st) (snd st)) as [[id [ps|]]|] eqn:Eg; try (destruct Hin).
+  destruct (gen_route sp c (fst st) (snd st)) as [[id [ps|]]|] eqn:Eg; try (destruct Hin).
   destruct (Hsend st id ps Hst Eg) as (E3 & _). rewrite E3 in Hin.
   unfold route_deps. apply in_flat_map. exists (route st). split; [apply in_map; exact Hst|exact Hin].
 Qed.
+
+(* ------------------------------------------------------------------ instances: the reference oracle and the generator's own *)
+Definition hw_tree_acyclic d g c := hw_tree_acyclic_gen sp_reference (bound g) d g c.
+Theorem model_tree_C09 (d : desc) (g : graph) (c : compiled) (ri : rinfo) (n : netlist) (dp : list (string * Z)) :
+  build d = Ok g -> compile d g = Ok c -> gen_routing_info sp_reference c = Ok ri -> emit c ri = Ok n -> d_algo d = ID ->
+  forallb (transitb sp_reference c) (c_nis c) = true ->
+  names_sepb g Req = true -> names_sepb g Rsp = true -> single_attachb g c = true -> links_typedb g c = true -> degrees_fitb c = true ->
+  attachedb c Req = true -> attachedb c Rsp = true -> tree_certb g dp = true ->
+  C09_on n.
+Proof. intros Hb Hc Hri He Ha. exact (model_tree_C09_gen sp_reference (bound g) d g c ri n dp Hb Hc Hri He Ha (contract_ref g c)). Qed.
+Theorem model_tree_C09_nx (d : desc) (g : graph) (c : compiled) (ri : rinfo) (n : netlist) (dp : list (string * Z)) :
+  build d = Ok g -> compile d g = Ok c -> gen_routing_info sp_nx c = Ok ri -> emit c ri = Ok n -> d_algo d = ID ->
+  forallb (transitb sp_nx c) (c_nis c) = true ->
+  names_sepb g Req = true -> names_sepb g Rsp = true -> single_attachb g c = true -> links_typedb g c = true -> degrees_fitb c = true ->
+  attachedb c Req = true -> attachedb c Rsp = true -> tree_certb g dp = true ->
+  C09_on n.
+Proof. intros Hb Hc Hri He Ha. exact (model_tree_C09_gen sp_nx (nxB g) d g c ri n dp Hb Hc Hri He Ha (contract_nx d g c Hb Hc)). Qed.
+
+Theorem tree_conditions_sound (d : desc) (g : graph) (c : compiled) (ri : rinfo) (n : netlist) :
+  build d = Ok g -> compile d g = Ok c -> gen_routing_info sp_reference c = Ok ri -> emit c ri = Ok n -> d_algo d = ID ->
+  (exists bs, tree_conditions sp_reference d = Ok bs /\ forallb (fun b => b) bs = true) -> C09_on n.
+Proof. intros Hb Hc Hri He Ha. exact (tree_conditions_sound_gen sp_reference (bound g) d g c ri n Hb Hc Hri He Ha (contract_ref g c)). Qed.
+Theorem tree_conditions_sound_nx (d : desc) (g : graph) (c : compiled) (ri : rinfo) (n : netlist) :
+  build d = Ok g -> compile d g = Ok c -> gen_routing_info sp_nx c = Ok ri -> emit c ri = Ok n -> d_algo d = ID ->
+  (exists bs, tree_conditions sp_nx d = Ok bs /\ forallb (fun b => b) bs = true) -> C09_on n.
+Proof. intros Hb Hc Hri He Ha. exact (tree_conditions_sound_gen sp_nx (nxB g) d g c ri n Hb Hc Hri He Ha (contract_nx d g c Hb Hc)). Qed.
+
+Definition hw_tree_acyclic_src d g c := hw_tree_acyclic_src_gen sp_reference (bound g) d g c.
